@@ -207,3 +207,87 @@ Proof.
   split; [vm_compute; reflexivity|]. split; [vm_compute; reflexivity|].
   eexists _, _. split; [vm_compute; reflexivity|]. split; [vm_compute; reflexivity|]. discriminate.
 Qed.
+
+(** ** (d) the profile channel (Model/ProfileJson.v, Model/RunProfile.v; proofs in
+    Proofs/ProfileJsonProofs.v).
+
+    [AbstractProfileSerializer] has no buffer of its own: the string sink is
+    [json.dumps(obj, indent=..)] (the chunks of the encoder joined), the file
+    sink [json.dump(obj, stream, indent=..)] (the same chunks written in order
+    into a file opened with mode [c_profile_json_file_mode] = "w", i.e.
+    truncated first).  Both calls carry the same arguments -- read from the
+    source into Gen/ConstsProfile.v; the proofs below compute with them -- so
+    for EVERY profile object the file holds byte for byte the returned string
+    (every byte of it is ASCII: [ensure_ascii]). *)
+From Shexer Require Import Gen.ConstsProfile Model.ProfileJson Model.RunProfile Proofs.ProfileJsonProofs.
+
+Theorem C18_profile_file_eq_string : forall inverse P,
+  profile_text PFile inverse P = profile_text PString inverse P.
+Proof. exact profile_sinks_agree. Qed.
+Print Assumptions C18_profile_file_eq_string.
+
+Theorem C18_profile_run_file_eq_string : forall c g,
+  run_profile_json PFile c g = run_profile_json PString c g.
+Proof. exact run_sinks_agree. Qed.
+Print Assumptions C18_profile_run_file_eq_string.
+
+(** the arguments the two sinks are called with *)
+Example C18_profile_sink_arguments :
+  sink_cfg PFile = sink_cfg PString /\ c_profile_json_file_mode = Str "w" /\
+  c_profile_json_str_fn = Str "dumps" /\ c_profile_json_file_fn = Str "dump".
+Proof. repeat split; reflexivity. Qed.
+
+(** ** (e) profile_graph inside call histories (Proofs/ProfileApi.v).
+
+    The API machine of (b) with the CONCRETE front -- tracker := [Tracker.track],
+    profiler := [Profiler.profile], profile text := [ProfileJson.profile_text] --
+    and everything behind the profile left universally quantified (the types of
+    shapes and thresholds, the shexing stage, example annotation, ShExC lines,
+    SHACL text, the random oracle, the threshold test).  In every well-formed
+    history every [profile_graph] call returns / writes [run_profile_json] of the
+    constructor arguments of its own Shaper: no earlier or interleaved call
+    (shex_graph in any format, on any channel, with any threshold; other
+    Shapers sharing the dictionary) changes the profile text, and the two
+    channels agree.  That a profile call does not disturb later [shex_graph]
+    calls is [C18_shex_calls_are_run_shexc] above (stated for EVERY profile
+    text function, so also for this one). *)
+From Shexer Require Import Proofs.ProfileApi.
+
+Theorem C18_profile_calls_are_run_profile_json :
+  forall (shapes thr : Type) (a_examples : cargs -> option str)
+         (st_shex : cargs -> nsd -> pprof -> thr -> shapes)
+         (st_add_examples : cargs -> nsd -> shapes -> shapes)
+         (st_shexc_lines : cargs -> nsd -> shapes -> list str)
+         (st_shacl_text : cargs -> nsd -> shapes -> str)
+         (rand : nat -> str) (fuel : nat) (thr_eqb : thr -> thr -> bool),
+    (forall x y, thr_eqb x y = true -> x = y) ->
+    (forall a d d' s, st_shacl_text a d (st_add_examples a d' s) = st_shacl_text a d s) ->
+    forall h : list (op cargs thr),
+      C18_dom cargs thr h = true ->
+      forall n i k, nth_error h n = Some (Profile i k) ->
+      exists a d, nth_error (pshapers_of thr h) i = Some (a, d) /\
+                  nth_error (run_prof shapes thr a_examples st_shex st_add_examples st_shexc_lines st_shacl_text
+                                      rand fuel thr_eqb h) n
+                  = Some (on_channel k (Some (encode (run_profile_json (psink_of k) (cfg_of a d) (ca_graph a))))).
+Proof. exact profile_calls_are_run_profile_json. Qed.
+Print Assumptions C18_profile_calls_are_run_profile_json.
+
+(** the delivered text determines the [str + rerr] result (a profile text starts with '{') *)
+Theorem C18_profile_result_read_back : forall k c g,
+  decode (encode (run_profile_json k c g)) = run_profile_json k c g.
+Proof. exact profile_result_read_back. Qed.
+Print Assumptions C18_profile_result_read_back.
+
+(** non-vacuity: profile calls before, between and after shex_graph calls of two thresholds on
+    two Shapers sharing the caller's dictionary; the shexing side is a dummy *)
+Definition h18p : list (op cargs unit) :=
+  [New a18 (DNew dEx); Profile 0 SFile; Shex 0 ShExC SString tt; New a18 (DShared 0); Profile 1 SString;
+   Shex 0 SHACL SFile tt; Profile 0 SString].
+
+Example C18_profile_history_inhabited :
+  C18_dom cargs unit h18p = true /\
+  exists t, run_profile_json PString (cfg_of a18 dEx) g18 = inl t /\
+    run_prof unit unit (fun _ => None) (fun _ _ _ _ => tt) (fun _ _ s => s) (fun _ _ _ => []) (fun _ _ _ => [])
+             (fun _ => []) 0 (fun _ _ => true) h18p
+    = [ONew; OFile t; OText []; ONew; OText t; OFile []; OText t].
+Proof. split; [vm_compute; reflexivity|]. eexists. split; vm_compute; reflexivity. Qed.
